@@ -372,9 +372,18 @@ func runOneHistory(opt TwinOptions, c int, r *rng.R, res *Result, hl *HistoryLog
 			// a node's witness role is a flag computed at start-up: a genesis witness acts as one only
 			// after its first restart. The third replica changes its role at a generated block, the
 			// way a restart does (it has no jobs of the trackers in flight then)
-			if len(reps) > 2 && p.Witnesses > 0 && flipAt == b.Height {
-				reps[2].IsWitness = !reps[2].IsWitness
-				hl.Add("  replica C changes its witness role to %v", reps[2].IsWitness)
+			if len(reps) > 2 && flipAt == b.Height {
+				// a real restart between two blocks: databases closed and reopened, every in-memory
+				// cache (reward calculator, validator queue, witness flag) rebuilt by the start-up code
+				was := reps[2].IsWitness
+				if err := reps[2].Restart(); err != nil {
+					return false, err
+				}
+				hl.Add("  replica C restarts before block %d", b.Height)
+				if p.Witnesses > 0 {
+					reps[2].IsWitness = !was
+					hl.Add("  replica C changes its witness role to %v", reps[2].IsWitness)
+				}
 			}
 			for _, rp := range reps[1:] {
 				rb := rp.ExecBlock(b)
